@@ -16,7 +16,9 @@ Local Open Scope string_scope.
 Local Open Scope list_scope.
 From OV Require Import Base.Bytes Base.Utf8 Base.ErrClass Gen.Safety Model.Latch Proofs.Latch Model.Safety
   Proofs.SafetyInvoke Proofs.SafetyValidate Proofs.SafetyJson Proofs.SafetyCsv Proofs.SafetyRlf
-  Proofs.SafetyFixed Proofs.SafetyReads.
+  Proofs.SafetyFixed Proofs.SafetyReads Proofs.SafetyMisc.
+(* C05's model: names qualified (Model.Hier and Model.Safety both have an [outcome]) *)
+From OV Require Model.Hier Model.HierSpec Proofs.HierInst Proofs.HierMain Proofs.HierTerm Proofs.SafetyHier.
 
 (* ---- custom_func invocation (transform/invokeCustomFunc.go) ---------------------------------- *)
 (* For every signature whose first parameter accepts *transformctx.Ctx (registration is the
@@ -39,24 +41,83 @@ Example invoke_nonvacuous :
 Proof. split; [exists TCtx, [TNode; TString; TAny]; split; reflexivity|vm_compute; split; reflexivity]. Qed.
 
 (* ---- template expansion (transform/validate.go) ---------------------------------------------- *)
-(* For every declaration set -- cyclic, self-referential, referencing undeclared names -- the
-   expansion of FINAL_OUTPUT needs recursion depth at most (number of declarations + 1). *)
-Theorem validate_terminates : forall g, validate_templates g <> VOutOfFuel.
+(* For every declaration set -- cyclic, self-referential, referencing undeclared names, with JSON
+   nulls where a declaration is expected (possible below xpath_dynamic) -- the expansion of
+   FINAL_OUTPUT needs recursion depth at most (number of declarations + 1) and never dereferences a
+   nil declaration (fix 86abe20). *)
+Theorem validate_terminates : forall g,
+  validate_templates g <> VOutOfFuel /\ validate_templates g <> VPanic.
 Proof. exact validate_terminates_lemma. Qed.
 
-(* ... and it is accepted only if nothing reachable from FINAL_OUTPUT lies on a reference cycle. *)
+(* ... and it is accepted only if nothing reachable from FINAL_OUTPUT lies on a reference cycle
+   and no reachable declaration contains a null. *)
 Theorem validate_cycle_rejected : forall g,
   validate_templates g = VOk ->
-  forall u, path g 0 u -> forall v, edge g u v -> ~ path g v u.
+  forall u, path g 0 u ->
+    (forall v, edge g u v -> ~ path g v u) /\ (forall body, nth_error g u = Some body -> ~ In None body).
 Proof. exact validate_cycle_rejected_lemma. Qed.
 
 Example validate_nonvacuous :
-  validate_templates [[1; 2]; [2]; []] = VOk                (* a diamond: accepted *)
-  /\ validate_templates [[1]; [2]; [1]] = VErrCycle          (* T1 -> T2 -> T1 *)
-  /\ validate_templates [[1]; [0]] = VErrCycle               (* back to FINAL_OUTPUT *)
-  /\ validate_templates [[1]; [7]] = VErrMissing
-  /\ validate_templates [[]; [2]; [1]] = VOk.               (* an unused cycle is never expanded *)
+  validate_templates [[Some 1; Some 2]; [Some 2]; []] = VOk        (* a diamond: accepted *)
+  /\ validate_templates [[Some 1]; [Some 2]; [Some 1]] = VErrCycle  (* T1 -> T2 -> T1 *)
+  /\ validate_templates [[Some 1]; [Some 0]] = VErrCycle            (* back to FINAL_OUTPUT *)
+  /\ validate_templates [[Some 1]; [Some 7]] = VErrMissing
+  /\ validate_templates [[]; [Some 2]; [Some 1]] = VOk              (* an unused cycle is never expanded *)
+  /\ validate_templates [[Some 1]; [None]] = VErrNull               (* a null inside a used template *)
+  /\ validate_templates [[]; [None]] = VOk.                         (* ... inside an unused one *)
 Proof. vm_compute. repeat split; reflexivity. Qed.
+
+Example validate_null_old_refuted :
+  validate_templates_old [[None]] = VPanic /\ validate_templates [[None]] = VErrNull.
+Proof. vm_compute. split; reflexivity. Qed.
+
+(* ---- integer members of file_declaration (the five format.go ValidateSchema) ------------------- *)
+(* For every JSON number literal (plain, with fraction / exponent, out of int64): what the
+   rows-based readers receive as by_rows / rows after schema validation is >= 1 -- the JSON-schema
+   minimum and "the json.Unmarshal error is returned" are both re-read from the source into
+   Gen/Safety.v (fix 5f762bb). *)
+Theorem rows_validated : forall l v,
+  (schema_int fixed_unmarshal_checked fixed_by_rows_min l = IStored v \/
+   schema_int csv2_unmarshal_checked csv2_rows_min l = IStored v \/
+   schema_int fixed2_unmarshal_checked fixed2_rows_min l = IStored v) -> (1 <= v)%Z.
+Proof. exact rows_validated_lemma. Qed.
+
+Example rows_zero_old_refuted :
+  schema_int false (Some 1%Z) (mkLit true (10 ^ 30) false) = IStored 0
+  /\ schema_int false (Some 1%Z) (mkLit true 1 false) = IStored 0
+  /\ schema_int false (Some 1%Z) (mkLit true 9223372036854775808 true) = IStored 0
+  /\ schema_int true (Some 1%Z) (mkLit true (10 ^ 30) false) = IRejected
+  /\ schema_int true (Some 1%Z) (mkLit true 1 false) = IRejected
+  /\ schema_int true (Some 1%Z) (mkLit true 3 true) = IStored 3.
+Proof. exact rows_zero_old_refuted_lemma. Qed.
+
+(* ---- idr/query.go wrappers; javascript results ------------------------------------------------ *)
+(* Whatever the xpath engine does on a compiled expression (panic, or any number of nodes; the
+   engine itself is third party and not modelled) MatchAny / matchNode and MatchAll / MatchSingle
+   return normally (fix e7ccd30). *)
+Theorem query_wrappers_no_panic : forall e,
+  match_any true e <> QPanic /\ match_single true e <> QPanic.
+Proof. exact query_wrappers_no_panic_lemma. Qed.
+
+Example query_panic_old_refuted :
+  match_any false EngPanic = QPanic /\ match_single false EngPanic = QPanic
+  /\ match_any true EngPanic = QBool false /\ match_single true EngPanic = QErr.
+Proof. exact query_panic_old_refuted_lemma. Qed.
+
+(* FULL STATEMENT "every javascript completion value becomes an error or a value": false of the
+   faithful model -- a Map / Set containing itself makes goja's own Export overflow the stack
+   (known finding N8, witness below).  Proved under the named guard js_no_map_set. *)
+Theorem javascript_result_no_panic_partial : forall v,
+  v <> JsMapSetSelf (* guard js_no_map_set *) -> js_result v = JsErr \/ js_result v = JsValue.
+Proof. exact javascript_result_no_panic_lemma. Qed.
+
+Example javascript_mapset_refuted : js_result JsMapSetSelf = JsFatal.
+Proof. exact javascript_mapset_refuted_lemma. Qed.
+
+Example javascript_old_refuted :
+  js_result_old true JsGetterThrows = JsPanicEscapes /\ js_result_old true JsCyclic = JsFatal
+  /\ js_result JsGetterThrows = JsErr /\ js_result JsCyclic = JsErr.
+Proof. exact javascript_old_refuted_lemma. Qed.
 
 (* ---- JSON stream reader cursor (idr/jsonreader.go) ------------------------------------------- *)
 (* For ANY token sequence (no hypothesis), any number of top-level values, over any number of
@@ -195,3 +256,38 @@ Example read_terminates_nonvacuous :
   map out_terminal (snd (run sing sing_step sing_cont (t_init, s0) (repeat OpRead 5)))
     = [false; false; true; true; true].
 Proof. vm_compute. reflexivity. Qed.
+
+(* ---- closed instances of the Read bound: the hierarchy reader (csv2, fixedlength2, EDI) --------- *)
+(* C05 proves the stack machine of flatfile/hierarchyReader.go (and of edi/reader.go) equal to the
+   recursive specification, for every validated declaration list and every unit sequence.  On the
+   specification every delivered target is paid for by >= 1 consumed unit (spec_deliveries_le_units),
+   so over the Read sequence of a run -- one Read per delivery, then the terminal one -- the
+   progress hypothesis of reads_bound_generic is discharged and the terminal result comes at Read
+   number n <= (number of lines / segments) + 1, with no hypothesis left. *)
+Theorem hier_reads_bound : forall ds us,
+  forallb HierInst.wfb ds = true -> Hier.count_tgts ds <= 1 ->
+  exists n, reads_to_terminal _ SafetyHier.run_reader (List.length (fst (Hier.run_kind Hier.KHier ds us)) + 1) (Hier.run_kind Hier.KHier ds us) = Some n
+            /\ 1 <= n <= List.length us + 1.
+Proof. exact SafetyHier.hier_reads_bound_lemma. Qed.
+
+(* EDI, inside C05's guard no_root_repeat (its known finding F14). *)
+Theorem edi_reads_bound : forall ds us,
+  forallb HierInst.wfb ds = true -> Hier.count_tgts ds <= 1 -> HierMain.no_root_repeat Hier.edi_leaf ds us ->
+  exists n, reads_to_terminal _ SafetyHier.run_reader (List.length (fst (Hier.run_kind Hier.KEdi ds us)) + 1) (Hier.run_kind Hier.KEdi ds us) = Some n
+            /\ 1 <= n <= List.length us + 1.
+Proof. exact SafetyHier.edi_reads_bound_lemma. Qed.
+
+(* Non-vacuity, and the bound is tight: a one-line target record over two lines is delivered
+   twice, the third Read is the terminal one (3 = units + 1); a header record, a group with a
+   two-line target and a trailer over five lines: two deliveries, terminal at Read 3 <= 6. *)
+Example hier_reads_nonvacuous :
+  let ds1 := [Hier.D 1 false true 0 None (Hier.LRows 1) []] in
+  let us1 := [Hier.U 7 1; Hier.U 7 2] in
+  let ds2 := [Hier.D 1 false false 0 (Some 1) (Hier.LName 1) [];
+              Hier.D 2 true false 0 None (Hier.LRows 0) [Hier.D 3 false true 1 None (Hier.LRows 2) []]] in
+  let us2 := [Hier.U 1 1; Hier.U 9 2; Hier.U 9 3; Hier.U 9 4; Hier.U 9 5] in
+  forallb HierInst.wfb ds1 = true /\ Hier.count_tgts ds1 = 1
+  /\ reads_to_terminal _ SafetyHier.run_reader 3 (Hier.run_kind Hier.KHier ds1 us1) = Some 3
+  /\ forallb HierInst.wfb ds2 = true /\ Hier.count_tgts ds2 = 1
+  /\ reads_to_terminal _ SafetyHier.run_reader 6 (Hier.run_kind Hier.KHier ds2 us2) = Some 3.
+Proof. vm_compute. repeat split; reflexivity. Qed.
